@@ -1,4 +1,56 @@
-/- Driver for C01 (stub: not built yet). -/
+import SkVerif.Model.Split
+import SkVerif.Drv.Parse
 namespace SkVerif.Drv.C01
-def handle (_toks : List String) : String := "bad-op"
+open SkVerif SkVerif.Split SkVerif.Drv
+
+def showErr : Err → String
+  | .type => "E:type" | .value => "E:value" | .index => "E:index" | .key => "E:key"
+
+def showE {α} (f : α → String) : Except Err α → String
+  | .ok a => f a
+  | .error e => showErr e
+
+def showFold (f : Fold) : String := s!"{showIntList f.1}|{showIntList f.2}"
+def showFolds (fs : List Fold) : String :=
+  if fs.isEmpty then "none" else ";".intercalate (fs.map showFold)
+
+def parseOInt? (s : String) : Option (Option Int) :=
+  if s == "none" then some none else (parseInt? s).map some
+
+def parseSize? (s : String) : Option Size :=
+  match s.splitOn ":" with
+  | ["none"] => some .none
+  | ["i", k] => (parseInt? k).map Size.int
+  | ["f", q] => (parseRat? q).map Size.frac
+  | _ => none
+
+def handle (toks : List String) : String :=
+  match toks with
+  | ["win", k, n, fh, wl, step, iw, sww] =>
+    match (if k == "s" then some Kind.sliding else if k == "e" then some Kind.expanding else none),
+          parseInt? n, parseIntList? fh, parseInt? wl, parseInt? step, parseOInt? iw, parseBool? sww with
+    | some k, some n, some fh, some wl, some step, some iw, some sww =>
+      s!"split={showE showFolds (windowSplit k n fh wl step iw sww)} cut={showE showIntList (windowCutoffs n fh wl step iw sww)} ns={showE toString (windowNSplits n fh wl step iw sww)}"
+    | _, _, _, _, _, _, _ => "bad-op"
+  | ["single", n, fh, wl] =>
+    match parseInt? n, parseIntList? fh, parseOInt? wl with
+    | some n, some fh, some wl =>
+      s!"split={showE showFolds (singleSplit n fh wl)} cut={showE showIntList (singleCutoffs n fh)} ns=1"
+    | _, _, _ => "bad-op"
+  | ["cutoff", n, cs, fh, wl] =>
+    match parseInt? n, parseIntList? cs, parseIntList? fh, parseInt? wl with
+    | some n, some cs, some fh, some wl =>
+      s!"split={showE showFolds (cutoffSplit n cs fh wl)} cut={showE showIntList (cutoffCutoffs cs)} ns={cs.length}"
+    | _, _, _, _ => "bad-op"
+  | ["ttsfh", n, fh, rel] =>
+    match parseInt? n, parseIntList? fh, parseBool? rel with
+    | some n, some fh, some rel =>
+      s!"tts={showE showFold (if rel then ttsByFhRel n fh else ttsByFhAbs n fh)}"
+    | _, _, _ => "bad-op"
+  | ["ttssize", n, te, tr] =>
+    match parseInt? n, parseSize? te, parseSize? tr with
+    | some n, some te, some tr => s!"tts={showE showFold (ttsBySize n te tr)}"
+    | _, _, _ => "bad-op"
+  | _ => "bad-op"
+
 end SkVerif.Drv.C01
